@@ -65,7 +65,8 @@ def r1_validation_before_insert(ctx):
     if len(cs) != 1:
         return
     reg, ibb, it = cs[0]
-    pe = access_path(reg, it["args"][1], [])
+    INTO = [r"convert::Into::into$", r"convert::From::from$"]     # `endpoint.into()`: the ApiEndpoint the caller's value converts to
+    pe = access_path(reg, it["args"][1], INTO)
     pr = access_path(reg, it["args"][0], VP)
     ctx.check(R, "insert-args", pe.kind() == "param" and not pe.path and pr.kind() == "param" and pr.path == ["router"] and pe.root[1] != pr.root[1],
               "insert(%r, %r)" % (pr, pe), (reg, ibb))
@@ -86,13 +87,18 @@ def r1_validation_before_insert(ctx):
                 not any(b in after_err for b in ok_return_blocks(reg))
         ctx.check(R, "%s-dominates-insert" % v, okd, "`%s(..)`: insert is dominated by the Ok edge of its result and the Err edge returns the error without inserting: %s" % (v, okd), (reg, vbb))
         ps = access_path(reg, vt["args"][0], VP)
-        pa = access_path(reg, vt["args"][1], VP)
+        pa = access_path(reg, vt["args"][1], VP + INTO)
         ctx.check(R, "%s-checks-the-inserted-endpoint" % v, pa.kind() == "param" and pa.root[1] == pe.root_local() and not pa.path and ps.kind() == "param" and ps.root[1] == pr.root_local() and not ps.path,
                   "%s(%r, %r); inserted: %r into %r" % (v, ps, pa, pe, pr), (reg, vbb))
     # register -> _register, error propagated
     rc = callers(ds, "^" + re.escape(reg.id) + "$")
     okp = False
     d = "callers of %s: %s" % (reg.id, sorted(f.id for f, _, _ in rc))
+    if not rc and reg.raw.get("vis") == "Public" and reg.id.endswith("::register"):
+        # the validating function is the public entry point itself (its private part was inlined): its own result is what the
+        # caller sees, and the `-dominates-insert` instances above already show that every Err leaves without inserting
+        okp = True
+        d = "%s is the public registration entry point itself; nothing sits between its result and the caller" % reg.id
     if len(rc) == 1:
         top, cbb, ct = rc[0]
         sp = result_split(top, ct["dest"]["l"])
